@@ -201,8 +201,15 @@ def import_obligations(col, new_rule: str, module: str, pred, why: str = ""):
     if module not in _SUB_CACHE:
         _SUB_CACHE[module] = "in-progress"
         sub = Collector(module)
-        importlib.import_module(f"sa.props.{module}").check(sub, "quick")
+        try:
+            importlib.import_module(f"sa.props.{module}").check(sub, "quick")
+        except AnalysisError as e:
+            sub.broken = str(e)
         _SUB_CACHE[module] = sub
+    if getattr(_SUB_CACHE[module], "broken", None):
+        # the other checker cannot analyse this tree (it reports that itself): this property is decided without the shared rule
+        col.info.setdefault("cross_references_unavailable", []).append(f"{new_rule}<-{module}: {_SUB_CACHE[module].broken[:80]}")
+        return
     n = 0
     for o in _SUB_CACHE[module].obs:
         if pred(o):
@@ -246,3 +253,41 @@ def check_prefix_test(col, rule: str, repo: Repo):
     lg = any(isinstance(n, ast.If) and isinstance(n.test, ast.Compare) and isinstance(n.test.ops[0], ast.Gt) and "len(c._scope_stack)" in src(n.test.left)
              and any(isinstance(r, ast.Return) and src(r.value) == "False" for r in n.body) for n in ast.walk(f.node))
     col.add(rule, "gc_scope.starts_with", "longer-scope-is-never-a-prefix", lg, "a scope with more frames than ours cannot be our prefix", f.loc)
+
+
+def check_rescope(col, rule: str, repo: Repo):
+    """copy_with_new_scope (used by Where/First to re-home a value inside the block they open) must return a copy that
+    carries the new scope - in cpp_value and in every override."""
+    base = repo.find_class("cpp_value")
+    defs = []
+    for c in [base] + repo.subclasses(base):
+        f = c.methods.get("copy_with_new_scope")
+        if f is not None:
+            defs.append((c, f))
+    if not defs:
+        raise AnalysisError("copy_with_new_scope not found")
+    for c, f in defs:
+        p = [a.arg for a in f.node.args.args]
+        rets = [r for r in walk_no_nested(f.node) if isinstance(r, ast.Return)]
+        ok = len(rets) == 1 and isinstance(rets[0].value, ast.Name)
+        if ok:
+            v = rets[0].value.id
+            copied = any(isinstance(n, ast.Assign) and src(n.targets[0]) == v and isinstance(n.value, ast.Call) and call_name(n.value) in ("copy", "deepcopy")
+                         and src(n.value.args[0]) == "self" for n in ast.walk(f.node))
+            scoped = any(isinstance(n, ast.Assign) and src(n.targets[0]) == f"{v}._scope" and src(n.value) == p[1] for n in ast.walk(f.node))
+            ok = copied and scoped
+        col.add(rule, f"{c.name}.copy_with_new_scope", "returns-a-copy-at-the-new-scope", ok,
+                "must return copy(self) with _scope set to the given scope: returning self leaves the value valid at its old scope, so First()/Where "
+                "cannot move its use inside the if they open (the assignment then runs on every iteration)", f.loc)
+
+
+def check_fill_scope(col, rule: str, repo: Repo):
+    """call_ResultTTree: Fill goes to the mainline scope, decided once - not to wherever the last column was computed."""
+    f = repo.method("query_ast_visitor", "call_ResultTTree")
+    ds = defs_of(f.node, "scope_fill")
+    sets = [c for c in ast.walk(f.node) if isinstance(c, ast.Call) and call_name(c) == "set_scope" and c.args and src(c.args[0]) == "scope_fill"]
+    ok = len(ds) == 1 and src(ds[0]).replace(" ", "") == "self.as_sequence(find_fill_scope(source)).scope()" and bool(sets)
+    col.add(rule, f.short, "fill-at-the-mainline-scope", ok,
+            "the scope restored before emitting Fill must be as_sequence(find_fill_scope(source)).scope(), defined once "
+            f"(definitions: {[src(d)[:60] for d in ds]}): a fill scope that follows the last scalar column puts Fill and the "
+            "other columns inside that column's if/loop", f.loc)
